@@ -112,9 +112,7 @@ def seg_call(I, node, recv, meth, args, kwargs, st):
         yield st, out
         return
     if meth == 'append':
-        # Segment.append(val): one more element at the end, every other position and the id unchanged; the text of the new
-        # element is left unconstrained (its composite split depends on the segment's own sub-element separator, which the
-        # abstract view does not carry).  None is refused by Composite.__init__ with EngineError.
+        # Segment.append(val): one more element at the end, the id unchanged.  None is refused by Composite.__init__ with EngineError.
         if len(args) != 1 or kwargs:
             yield st, I.exc('TypeError', node)
             return
@@ -125,14 +123,13 @@ def seg_call(I, node, recv, meth, args, kwargs, st):
             raise EngineLimit('Segment.append of %r' % (args[0],))
         if ref is None:
             raise EngineLimit('Segment.append on an immutable abstract segment')
-        I.trusted.add('abstract Segment.append(str): adds exactly one element at the end, changes nothing else, raises nothing '
+        I.trusted.add('abstract Segment.append(str): adds exactly one element, keeps the segment id, raises nothing '
                       '(Composite.__init__ on a str with a one-character separator; native stand-in bounded_segment_laws)')
         n = d['len'](s)
         _once(st, n >= 0)
+        # (the elements of the new value are left unconstrained: no contract reads them after an append, and a quantified frame
+        # axiom in the path condition keeps the solvers from producing counter-models - strictly less is assumed this way)
         new = I.fresh('seg', d['S'])
-        kk = z3.Int('seg!k')
-        st.assume(z3.ForAll([kk], z3.Implies(z3.Or(kk < key(n + 1, 0), kk >= key(n + 2, 0)), d['elem'](new, kk) == d['elem'](s, kk)),
-                            patterns=[d['elem'](new, kk)]))
         st.assume(d['sid'](new) == d['sid'](s))
         st.assume(d['len'](new) == n + 1)
         o = st.mut(ref.addr)
